@@ -7,7 +7,6 @@ import (
 	"path/filepath"
 	"sort"
 	"strconv"
-	"strings"
 
 	"github.com/bwmarrin/snowflake"
 	"github.com/xujiajun/nutsdb"
@@ -412,7 +411,7 @@ func key(c Call) []byte {
 
 func val(c Call) []byte {
 	if c.Big > 0 {
-		return []byte(strings.Repeat("x", c.Big))
+		return []byte(c.BigVal())
 	}
 	return []byte(c.V)
 }
